@@ -110,6 +110,10 @@ func Setup(repo string, props []string, extraPkgs []string) (*World, error) {
 		return nil, fmt.Errorf("no packages to load")
 	}
 	w, err := Load(repo, patterns, overlay)
+	if w != nil {
+		w.Overlay = overlay
+		w.Repo = repo
+	}
 	if err != nil {
 		if os.Getenv("GOVC_DUMP_OVERLAY") != "" {
 			for f, c := range overlay {
